@@ -2,6 +2,7 @@
 package c04
 
 import (
+	"io"
 	"bytes"
 	"encoding/json"
 	"fmt"
@@ -197,6 +198,18 @@ func roundTrip(v reflect.Value, opts []jsonv2.Options, omit bool, bytesOnly ...b
 	if err := jsonv2.Unmarshal(b, p.Interface(), opts...); err != nil {
 		return fmt.Sprintf("Unmarshal rejects Marshal's own output %q: %v", trunc(b), err)
 	}
+	// the same trip through the streaming entry points: MarshalWrite to a plain writer, UnmarshalRead from a plain reader
+	var sw streamW
+	if err := jsonv2.MarshalWrite(&sw, v.Interface(), opts...); err != nil {
+		return fmt.Sprintf("MarshalWrite failed where Marshal succeeded: %v", err)
+	}
+	ps := reflect.New(t)
+	if err := jsonv2.UnmarshalRead(&streamR{b: sw.b}, ps.Interface(), opts...); err != nil {
+		return fmt.Sprintf("UnmarshalRead rejects MarshalWrite's own output %q: %v", trunc(sw.b), err)
+	}
+	if bs, err := jsonv2.Marshal(ps.Elem().Interface(), opts...); err != nil || (!omit && !bytes.Equal(bs, b)) {
+		return fmt.Sprintf("MarshalWrite + UnmarshalRead: re-marshaling the decoded value gives %q (%v), first encoding %q", trunc(bs), err, trunc(b))
+	}
 	b2, err := jsonv2.Marshal(p.Elem().Interface(), opts...)
 	if err != nil {
 		return fmt.Sprintf("re-Marshal of the decoded value failed: %v", err)
@@ -223,6 +236,25 @@ func roundTrip(v reflect.Value, opts []jsonv2.Options, omit bool, bytesOnly ...b
 		return fmt.Sprintf("no fixed point after one round: %q -> %q -> %q (%v)", trunc(b), trunc(b2), trunc(b3), err)
 	}
 	return ""
+}
+
+// streamW / streamR are a plain io.Writer and io.Reader (not *bytes.Buffer), the reader delivering 7 bytes per call.
+type streamW struct{ b []byte }
+
+func (w *streamW) Write(p []byte) (int, error) { w.b = append(w.b, p...); return len(p), nil }
+
+type streamR struct {
+	b []byte
+	i int
+}
+
+func (r *streamR) Read(p []byte) (int, error) {
+	if r.i >= len(r.b) {
+		return 0, io.EOF
+	}
+	n := copy(p[:min(len(p), 7)], r.b[r.i:])
+	r.i += n
+	return n, nil
 }
 
 func trunc(b []byte) string {
@@ -351,6 +383,7 @@ func Run(r *evid.Run) {
 	r.Bound("type universe: %d types (nesting depth 2; %d element types carried to the second level) x their value domains x %d option sets", len(ts), map[int]int{1: 16, 2: 24}[depth], len(sets))
 	formats(r)
 	tagLeaks(r)
+	memberNames(r)
 	wide(r)
 	float32RoundTrip(r)
 }
